@@ -123,3 +123,9 @@ Fixpoint tree_equivb_aux (with_tail : bool) (a b : tree) : bool :=
          end) ka kb
   end.
 Definition tree_equivb (a b : tree) : bool := tree_equivb_aux false a b.
+
+(* apply g to the attribute list of every node *)
+Fixpoint tree_map_attrs (g : list (str * str) -> list (str * str)) (t : tree) : tree :=
+  match t with
+  | Node l ks => Node (Lab (ltag l) (g (lattrs l)) (ltext l) (ltail l)) (map (tree_map_attrs g) ks)
+  end.
